@@ -94,26 +94,31 @@ func validateJSONPatches(patches []byte) error {
 	return nil
 }
 
+// rfc6901Decoder decodes the escape sequences of a reference token the way the patch library does.
+var rfc6901Decoder = strings.NewReplacer("~1", "/", "~0", "~")
+
 // isAncestor reports whether the location from may be a proper prefix of the location path. Reference tokens are
-// compared the way the patch library resolves them: array positions are read with strconv.Atoi, so "0", "00",
-// "+0" and "-0" are one position and a negative number counts from the end of the array; two numeric tokens are
-// therefore taken to address the same element.
+// compared the way the patch library resolves them: escape sequences are decoded first ("a~0" and the malformed
+// "a~" name the same member), and array positions are read with strconv.Atoi, so "0", "00", "+0" and "-0" are one
+// position and a negative number counts from the end of the array; two numeric tokens are therefore taken to
+// address the same element.
 func isAncestor(from, path string) bool {
 	fromTokens, pathTokens := strings.Split(from, "/"), strings.Split(path, "/")
 	if len(fromTokens) >= len(pathTokens) {
 		return false
 	}
 
-	for i, token := range fromTokens {
-		if token == pathTokens[i] {
+	for i := range fromTokens {
+		fromToken, pathToken := rfc6901Decoder.Replace(fromTokens[i]), rfc6901Decoder.Replace(pathTokens[i])
+		if fromToken == pathToken {
 			continue
 		}
 
-		if _, err := strconv.Atoi(token); err != nil {
+		if _, err := strconv.Atoi(fromToken); err != nil {
 			return false
 		}
 
-		if _, err := strconv.Atoi(pathTokens[i]); err != nil {
+		if _, err := strconv.Atoi(pathToken); err != nil {
 			return false
 		}
 	}
